@@ -98,7 +98,7 @@ def _geometry(ex, R):
     if dn == 'sym-plane':
         ux = ex.real('ux', -1, 1)
         uz = ex.real('uz', -1, 1)
-        ex.assume(ux * ux + uz * uz == 1)
+        ex.assume_eq(ux * ux + uz * uz, 1.0)
         return (x, y, z), [ux, 0.0, uz]
     return (x, y, z), list(DIRS[dn])
 
@@ -243,7 +243,7 @@ def h_rotation_scalars(ex):
     u, E, b, e2, disc = ref_chord(ex, e, d, R)
     c = ex.real('c', -1, 1)
     s_ = ex.real('s', -1, 1)
-    ex.assume(c * c + s_ * s_ == 1)
+    ex.assume_eq(c * c + s_ * s_, 1.0)
     er = (c * e[0] - s_ * e[1], s_ * e[0] + c * e[1], e[2])
     dr = [c * d[0] - s_ * d[1], s_ * d[0] + c * d[1], d[2]]
     Er = [er[0], er[1], er[2] + R]
